@@ -33,6 +33,9 @@ CHECKS = {
  "C11": dict(engine="mux", tech="TLA+ spec (Mux faults: Cut, CloseA, CloseB, overflow) model-checked by TLC incl. liveness AfterClose/WritersEnd; TLC-enumerated fault placements (Gen_Mux) replayed on the real mux with a byte-cutting trunk; traces validated by TLC",
    text="Design: PrefixInv under every fault and the liveness properties AfterClose / WritersEnd are model-checked. Gen_Mux enumerates the trunk cut after byte k in either direction (every k in thorough, every 3rd in quick), a close of either end after j frames by 1, 2 or 8 concurrent closers, and overflow at every position for queue lengths 1 and 2; each is realised on the real mux in a child process (a panic is observed as such). The validated trace must show: received data always the in-order prefix (queue head) of what was sent; an overflow only when the queue really was full; no Read/Write/Close/Accept hanging (3 s watchdog); writes after the failure fail; reads return queued frames and then an error (EOF after an orderly close); second Accept returns EOF after the listener is closed.",
    ref="5/C11", note="As C10. After an error, reads may still return frames that were already queued (conn.Read selects between the closed channel and the queue); the property's prefix clause is what is asserted."),
+ "C16": dict(engine="stublife", tech="TLA+ spec (StubLife) model-checked by TLC incl. liveness and the pre-repair transcription as negative control; TLC-generated operation sequences (Gen_Stub) replayed on a real stub against a scripted runtime end; traces validated by TLC (Trace_Stub)",
+   text="StubLife.tla is model-checked for 3 sessions x 6 runtime behaviours (FreshConn, Usable, OnceNotify, LateNotifyHarmless, EventuallyNotified, StartReturns); the transcription of the code before the repairs must violate it. Gen_Stub generates every sequence of up to 4 (5) operations Start(behaviour)/Stop/Wait/connection loss/release of a held-back close notification; each runs on one real stub over pipes from stub.WithDialer against a scripted mux+ttRPC runtime end, plus cuts after byte k of the handshake in both directions; the validated trace must show every operation returning within the watchdog, Start succeeding exactly when the runtime end is healthy, a fresh dial after every failure, the probe 'current session works' agreeing with the specification, and one close notification per established session.",
+   ref="5/C16", note="Trusted base: TLC; the scripted runtime end (harness/rawpeer); notifications gated at hook stub.connclosed; 2 s watchdog per operation."),
  "C13": dict(engine="oci", tech="TLA+ spec (Container.OciApply) with theorems SetWins/Removes/Frame checked by TLC; TLC-enumerated + random (spec, adjustment) pairs replayed on the real generator x R repetitions; TLC trace validation (Trace_Oci)",
    text="OciApply is the specification of Generator.Adjust; TLC checks on every enumerated pair that a set wins over a removal in any list order, that removals take effect and that nothing unnamed changes; every pair is applied 16 (quick) / 64 (thorough) times by the real generator on fresh copies and each result must equal OciApply, the rest of the spec must be unchanged, mounts must come parents-first and all repetitions must be identical (labels C13-result, C13-frame, C13-mount-order, C13-determinism).",
    ref="5/C13", note="Trusted base: TLC; harness/abs OCI projection; device cgroup allow rules added with devices are not compared; rshared/rslave mount options (host mountinfo) are outside the domain."),
@@ -94,6 +97,8 @@ m = {
  "engines": [
    {"name": "mux", "path": "/verif/lib/mux.py", "serves_properties": ["C10", "C11"],
     "kind_free_text": "TLC model checking (tla/Mux), fault placements (tla/Gen_Mux), recording driver with child isolation (harness/muxdrv, hooks in mux.go), TLC trace validation (tla/Trace_Mux)"},
+   {"name": "stublife", "path": "/verif/lib/stublife.py", "serves_properties": ["C16"],
+    "kind_free_text": "TLC (tla/StubLife, tla/Gen_Stub) + stub driver against a scripted runtime end (harness/stubdrv, harness/rawpeer) + TLC trace validation (tla/Trace_Stub)"},
    {"name": "sync", "path": "/verif/lib/sync.py", "serves_properties": ["C09"],
     "kind_free_text": "TLC (tla/SyncChunk) + real registrations in child processes (harness/syncdrv) + TLC trace validation (tla/Trace_Sync)"},
    {"name": "oci", "path": "/verif/lib/oci.py", "serves_properties": ["C13"],
